@@ -239,6 +239,56 @@ def e2e_repeated_io_errors(out, tier):
     return res
 
 
+def e2e_timeout_with_dependants(out, tier):
+    """A target that overruns its own `timeout:` (1 s against `sleep 3`) with a chain of two dependants and an unrelated target, in
+    keep-going and fail-fast mode, num_workers 1 and 4: the build must RETURN (non-zero) within the limit, the dependants never run,
+    the unrelated target is built in keep-going mode.  (A timed-out target is a FAILED target: it resolves, and so do its dependants.)"""
+    import os, shutil, subprocess, json, time
+    grog = vlib.build_grog()
+    base = os.path.join(vlib.scratch(), "c04timeoutdeps")
+    shutil.rmtree(base, ignore_errors=True)
+    res = []
+    for W in (1, 4):
+        for ff in (False, True):
+            d = os.path.join(base, "w%d-%d" % (W, ff))
+            ws, root = os.path.join(d, "ws"), os.path.join(d, "root")
+            os.makedirs(ws); os.makedirs(root)
+            log = os.path.join(d, "ran.log")
+            open(log, "w").close()
+            json.dump({"targets": [
+                {"name": "slow", "timeout": "1s", "command": "sleep 3; echo slow >> %s" % log},
+                {"name": "after", "dependencies": [":slow"], "command": "echo after >> %s" % log},
+                {"name": "after2", "dependencies": [":after"], "command": "echo after2 >> %s" % log},
+                {"name": "other", "command": "echo other >> %s" % log}]}, open(os.path.join(ws, "BUILD.json"), "w"))
+            open(os.path.join(ws, "grog.toml"), "w").write("num_workers = %d\n" % W)
+            env = {"PATH": os.environ["PATH"], "GROG_ROOT": root, "HOME": d, "NO_COLOR": "1"}
+            t0 = time.time()
+            try:
+                p = subprocess.run([grog, "build"] + (["--fail-fast"] if ff else []), cwd=ws, env=env, stdin=subprocess.DEVNULL,
+                                   stdout=subprocess.PIPE, stderr=subprocess.PIPE, text=True, timeout=40)
+                rc = p.returncode
+            except subprocess.TimeoutExpired:
+                rc = "hang"
+            ran = open(log).read().split()
+            rp = {"workspace": "//:slow (timeout 1s, sleeps 3 s) <- //:after <- //:after2; //:other", "num_workers": W, "fail_fast": ff, "exit": rc,
+                  "commands_that_completed": ran, "seconds": round(time.time() - t0, 2)}
+            res.append(rp)
+            if rc == "hang":
+                out.violation("`grog build` does not return within 40 s after a target with dependants exceeded its timeout (num_workers=%d, fail_fast=%s)" % (W, ff), rp)
+                return res
+            if rc == 0:
+                out.violation("a build in which a target exceeded its timeout exits 0 (num_workers=%d, fail_fast=%s)" % (W, ff), rp)
+                return res
+            if "after" in ran or "after2" in ran or "slow" in ran:
+                out.violation("after a target exceeded its timeout %s ran (num_workers=%d, fail_fast=%s)" % ([x for x in ran if x != "other"], W, ff), rp)
+                return res
+            if not ff and "other" not in ran:
+                out.violation("keep-going build: the target unrelated to the timed-out one was not built (num_workers=%d)" % W, rp)
+                return res
+    shutil.rmtree(base, ignore_errors=True)
+    return res
+
+
 def run(out, tier):
     findings = {f["class"]: f for f in vlib.known_findings("C04")}
     info, scheds, extra = walkerlib.gated_campaign(out, "C04", tier, "term", race=(tier == "thorough"))
@@ -265,6 +315,7 @@ def run(out, tier):
     e2e = e2e_termination(out, tier)
     e2e["wide_restore"] = e2e_wide_restore(out, tier)
     e2e["repeated_io_errors"] = e2e_repeated_io_errors(out, tier)
+    e2e["timeout_with_dependants"] = e2e_timeout_with_dependants(out, tier)
     samples = []
     for s in scheds[:400:150]:
         tr = extra.get("traces", {}).get(s["id"])
